@@ -12,6 +12,7 @@ import (
 	"time"
 
 	simplefixgo "github.com/b2broker/simplefix-go"
+	"github.com/b2broker/simplefix-go/fix"
 	"github.com/b2broker/simplefix-go/session"
 	"github.com/b2broker/simplefix-go/storages/memory"
 	"github.com/b2broker/simplefix-go/utils"
@@ -181,6 +182,7 @@ func checkC20(c *C20Case, rec *evid.Rec) (vs []pbt.Violation) {
 				HandleOutgoing(string, simplefixgo.OutgoingHandlerFunc) int64
 				Stop()
 			}
+			st *memory.Storage // the store this session counts and keeps its messages in
 		}
 		var gotsMu sync.Mutex
 		var gots []got
@@ -209,7 +211,7 @@ func checkC20(c *C20Case, rec *evid.Rec) (vs []pbt.Violation) {
 					once.Do(func() {
 						if snd, _ := ref.Lookup(b, rig.TagSenderCompID); snd == "PEER" {
 							gotsMu.Lock()
-							gots = append(gots, got{s, h})
+							gots = append(gots, got{s, h, st})
 							gotsMu.Unlock()
 						}
 					})
@@ -233,7 +235,7 @@ func checkC20(c *C20Case, rec *evid.Rec) (vs []pbt.Violation) {
 			if err != nil {
 				panic(err)
 			}
-			gots = append(gots, got{s, ir.H})
+			gots = append(gots, got{s, ir.H, store})
 		}
 		synctest.Wait()
 		conn.Feed(logon())
@@ -324,6 +326,9 @@ func checkC20(c *C20Case, rec *evid.Rec) (vs []pbt.Violation) {
 					case <-time.After(time.Duration(c.PollNs)):
 						act("query")
 						_ = sess.IsLogged()
+						// an application that watches the position of the session (the bundled store's counters)
+						_, _ = g.st.GetCurrSeqNum(fix.StorageID{Sender: "LIB", Target: "PEER", Side: fix.Incoming})
+						_, _ = g.st.GetCurrSeqNum(fix.StorageID{Sender: "LIB", Target: "PEER", Side: fix.Outgoing})
 					}
 				}
 			}()
